@@ -19,10 +19,17 @@ import Splipy.Model.History
 * `History.SplitOK`, `History.stepOut_split_any_wf_partial`, `History.SplitOK.of_exact` : both kinds of
   direction.
 
-Left as a hypothesis (`hMult`): after the insertion loop the first split value has multiplicity at least `p`
-at `bisect_left`.  For a single split value it is derived from exact tolerance comparisons
-(`hMult_of_exact`); for `rest ≠ []` one would need that a periodic insertion of another value never lowers
-the multiplicity of `x0`, which no lemma provides yet.
+Guard-free versions (second half of the file; periodic `insert_knot` works on every valid periodic basis):
+`Obj.WellFormed.lowerPeriodic_all`, `Obj.WellFormed.lowerPeriodic_any`, `History.stepOut_lowerPeriodic_wf`
+(no hypothesis), `C10.mult_insert_ge` (a periodic insertion never lowers the multiplicity of a value
+strictly inside the domain), `C10.hMult_of_exact_cons` (`hMult` for `x0 :: rest`, `start < x0`),
+`C10.opened_wf_all`, `Obj.WellFormed.split_periodic_all` / `split_periodic_exact`,
+`History.stepOut_split_periodic_wf_all_partial`, `History.stepOut_split_periodic_single_wf_all_partial`,
+`History.SplitOKAll`, `History.stepOut_split_all_wf_partial`.
+
+Still restricted for the periodic `split`: exact tolerance comparisons at the first value (`hexR`, `hexL`);
+later values in `[x0, x0 + T)`; with later values `x0 ≠ start` (at `x0 = start` the multiplicity of `x0` in
+the ARRAY may be split between the two ends, and the end knot of the opened basis may exceed `p`).
 -/
 
 set_option linter.unusedSectionVars false
@@ -579,6 +586,775 @@ theorem SplitOK.of_exact {o : Obj K} (h : o.WellFormed) (tol : K) (htol : 0 < to
   Or.inr ⟨k, x0, [], rfl, hk, hguard, hx,
     hMult_of_exact o dir hd (h.valid dir hd) k hk hguard (h.shape_getD dir 0 hd) htol hx hexR hexL,
     fun y hy => absurd hy List.not_mem_nil, fun hne => absurd rfl hne⟩
+
+end History
+
+
+/-! # Guard-free versions (periodic `insert_knot` repaired: every valid periodic direction) -/
+
+/-! ## `lower_periodic`, every direction -/
+
+namespace Obj
+
+/-- **One round of `lower_periodic`** keeps the object well formed — every valid periodic direction. -/
+theorem WellFormed.lowerStep_all {o o2 : Obj K} (h : o.WellFormed) (dir : ℕ) (hd : dir < o.bases.size)
+    (k : ℕ) (hk : (o.basis dir).periodic = (k : Int))
+    (hs : o.lowerStep dir = .ok o2) : o2.WellFormed ∧ LowerCore o o2 dir 1 := by
+  have hv := h.valid dir hd
+  have hax : dir < o.cps.shape.length := by rw [h.shape_length]; omega
+  obtain ⟨o2', hs', hI, _⟩ := lowerStep_core o dir hd hax hv k hk (h.shape_getD dir 0 hd)
+  rw [hs] at hs'
+  have e2 : o2 = o2' := Except.ok.inj hs'
+  subst e2
+  refine ⟨?_, hI⟩
+  unfold Obj.lowerStep at hs
+  obtain ⟨o1, hins, hrest⟩ := bind_ok hs
+  obtain ⟨b1, hroll, hpure⟩ := bind_ok hrest
+  have ho2 := Except.ok.inj hpure
+  obtain ⟨hw1, hsz1, _, _, _, hnum1, _, _⟩ := h.insertKnots_periodic_all dir hd k hk
+    [(o.basis dir).start] hins
+  have hd1 : dir < o1.bases.size := by rw [hsz1]; exact hd
+  have hvalid := hI.valid
+  have hnum := hI.num_eq
+  rw [← ho2] at hvalid hnum ⊢
+  rw [C04.basis_set o1 dir hd1] at hvalid hnum
+  exact hw1.rollNeg dir 1 hd1 _ hvalid (by rw [hnum, hnum1]; rfl)
+
+/-- The loop of `lower_periodic`, every valid periodic direction: the result is well formed. -/
+theorem lowerLoop_wf_all (o0 : Obj K) (dir : ℕ) (hdir : dir < o0.bases.size) (k : ℕ)
+    (hk : (o0.basis dir).periodic = (k : Int)) (target : Int) :
+    ∀ (r : ℕ) (o' : Obj K) (j : ℕ), LowerCore o0 o' dir j → o'.WellFormed → (k : Int) - j - r = target →
+      -1 ≤ target → ∀ o'', Obj.lowerPeriodic.loop target dir (r + 1) o' = .ok o'' →
+      LowerCore o0 o'' dir (j + r) ∧ o''.WellFormed := by
+  intro r
+  induction r with
+  | zero =>
+    intro o' j hI hw ht _ o'' hs
+    rw [Obj.lowerLoop_succ_eq o' target dir 0 (by rw [hI.periodic_eq, hk]; omega)] at hs
+    have : o' = o'' := Except.ok.inj hs
+    rw [← this]
+    exact ⟨hI, hw⟩
+  | succ r ih =>
+    intro o' j hI hw ht hm o'' hs
+    have hper' : (o'.basis dir).periodic = ((k - j : ℕ) : Int) := by
+      rw [hI.periodic_eq, hk]; omega
+    rw [Obj.lowerLoop_succ_lt o' target dir (r + 1) (by rw [hper']; omega)] at hs
+    obtain ⟨o2, hstep, hloop⟩ := bind_ok hs
+    obtain ⟨hw2, hI2⟩ := hw.lowerStep_all dir (by rw [hI.bases_size]; exact hdir) (k - j) hper' hstep
+    obtain ⟨hI3, hw3⟩ := ih o2 (j + 1) (hI.step hI2) hw2 (by push_cast; omega) hm o'' hloop
+    exact ⟨by rw [show j + (r + 1) = j + 1 + r by omega]; exact hI3, hw3⟩
+
+/-- **`lower_periodic(k', dir)` keeps the object well formed** — every periodic direction,
+    `-1 ≤ k' ≤ k`. -/
+theorem WellFormed.lowerPeriodic_all {o o' : Obj K} (h : o.WellFormed) (dir : ℕ)
+    (hd : dir < o.bases.size) (k : ℕ) (hk : (o.basis dir).periodic = (k : Int))
+    (k' : Int) (h1 : -1 ≤ k') (h2 : k' ≤ k) (hs : o.lowerPeriodic k' dir = .ok o') :
+    o'.WellFormed ∧ o'.bases.size = o.bases.size ∧ (∀ d, d ≠ dir → o'.basis d = o.basis d) ∧
+      (o'.basis dir).periodic = k' ∧ (o'.basis dir).order = (o.basis dir).order ∧
+      (o'.basis dir).numFunctions = (o.basis dir).numFunctions + ((k : Int) - k').toNat ∧
+      (o'.basis dir).start = (o.basis dir).start ∧ (o'.basis dir).stop = (o.basis dir).stop := by
+  have hv := h.valid dir hd
+  have hax : dir < o.cps.shape.length := by rw [h.shape_length]; omega
+  unfold Obj.lowerPeriodic at hs
+  rw [hk] at hs
+  obtain ⟨hI, hw⟩ := lowerLoop_wf_all o dir hd k hk k' ((k : Int) - k').toNat o 0
+    (LowerCore.refl o dir hax hv (h.shape_getD dir 0 hd)) h (by omega) h1 o' hs
+  rw [Nat.zero_add] at hI
+  refine ⟨hw, hI.bases_size, hI.other, ?_, hI.order_eq, hI.num_eq, hI.start_eq, hI.stop_eq⟩
+  rw [hI.periodic_eq, hk]; omega
+
+/-- A round of `lower_periodic` on a NON-periodic direction raises (`roll`: `RuntimeError`, or an
+    earlier exception of `insert_knot`). -/
+theorem WellFormed.lowerStep_open_error {o : Obj K} (h : o.WellFormed) (dir : ℕ)
+    (hd : dir < o.bases.size) (hper : (o.basis dir).periodic = -1) :
+    ∃ e, o.lowerStep dir = .error e := by
+  have hv := h.valid dir hd
+  cases hstep : o.lowerStep dir with
+  | error e => exact ⟨e, rfl⟩
+  | ok o2 =>
+    exfalso
+    unfold Obj.lowerStep at hstep
+    obtain ⟨o1, hins, hrest⟩ := bind_ok hstep
+    obtain ⟨b1, hroll, _⟩ := bind_ok hrest
+    have hp1 := (h.insertKnots dir hd hper [(o.basis dir).start] (by
+      intro x hx
+      rw [List.mem_singleton] at hx
+      rw [hx]; exact ⟨le_refl _, hv.start_lt_stop⟩) hins).2.2.2.1
+    unfold Basis.roll at hroll
+    rw [if_pos (by rw [hp1]; decide)] at hroll
+    cases hroll
+
+/-- `lower_periodic(target)` with `target < -1` raises: the loop reaches a non-periodic direction and
+    `roll` refuses it.  (`m` = periodicity `+ 1`, `f` = fuel.) -/
+theorem lowerLoop_below (dir : ℕ) (target : Int) (ht : target < -1) :
+    ∀ (m f : ℕ) (o' : Obj K), o'.WellFormed → dir < o'.bases.size →
+      (o'.basis dir).periodic = (m : Int) - 1 → m + 1 ≤ f →
+      ∃ e, Obj.lowerPeriodic.loop target dir f o' = .error e := by
+  intro m
+  induction m with
+  | zero =>
+    intro f o' hw hd hper hf
+    obtain ⟨f', rfl⟩ : ∃ f', f = f' + 1 := ⟨f - 1, by omega⟩
+    have hper' : (o'.basis dir).periodic = -1 := by rw [hper]; norm_num
+    rw [Obj.lowerLoop_succ_lt o' target dir f' (by rw [hper']; exact ht)]
+    obtain ⟨e, he⟩ := hw.lowerStep_open_error dir hd hper'
+    rw [he]
+    exact ⟨e, rfl⟩
+  | succ m ih =>
+    intro f o' hw hd hper hf
+    obtain ⟨f', rfl⟩ : ∃ f', f = f' + 1 := ⟨f - 1, by omega⟩
+    have hper' : (o'.basis dir).periodic = (m : Int) := by rw [hper]; push_cast; ring
+    rw [Obj.lowerLoop_succ_lt o' target dir f' (by rw [hper']; omega)]
+    cases hstep : o'.lowerStep dir with
+    | error e => exact ⟨e, rfl⟩
+    | ok o2 =>
+      obtain ⟨hw2, hI2⟩ := hw.lowerStep_all dir hd m hper' hstep
+      obtain ⟨e, he⟩ := ih f' o2 hw2 (by rw [hI2.bases_size]; exact hd)
+        (by rw [hI2.periodic_eq, hper']; push_cast; ring) (by omega)
+      exact ⟨e, he⟩
+
+/-- **Every successful `lower_periodic` keeps the object well formed.** -/
+theorem WellFormed.lowerPeriodic_any {o o' : Obj K} (h : o.WellFormed) (dir : ℕ)
+    (hd : dir < o.bases.size) (t : Int) (hs : o.lowerPeriodic t dir = .ok o') : o'.WellFormed := by
+  have hv := h.valid dir hd
+  rcases lt_trichotomy (o.basis dir).periodic t with hlt | heq | hgt
+  · rw [lowerPeriodic_raise o dir t hlt] at hs
+    cases hs
+  · rw [lowerPeriodic_same o dir t heq] at hs
+    have : o = o' := Except.ok.inj hs
+    rw [← this]; exact h
+  · by_cases ht : -1 ≤ t
+    · obtain ⟨k, hk⟩ : ∃ k : ℕ, (o.basis dir).periodic = (k : Int) :=
+        ⟨(o.basis dir).periodic.toNat, by omega⟩
+      exact (h.lowerPeriodic_all dir hd k hk t ht (by omega) hs).1
+    · exfalso
+      have hge := hv.periodic_ge
+      unfold Obj.lowerPeriodic at hs
+      obtain ⟨e, he⟩ := lowerLoop_below dir t (by omega) ((o.basis dir).periodic + 1).toNat
+        (((o.basis dir).periodic - t).toNat + 1) o h hd (by omega) (by omega)
+      rw [he] at hs
+      cases hs
+
+end Obj
+
+namespace History
+
+/-- **`lower_periodic`: every call that completes leaves a well-formed receiver** (no hypothesis on the
+    direction or on the target; `t > periodic` and `t < -1` raise, `t = periodic` is the identity). -/
+theorem stepOut_lowerPeriodic_wf {o : Obj K} (h : o.WellFormed) (tol : K) (t : Int) (dir : ℕ)
+    {out : Out K} (hs : stepOut tol o (.lowerPeriodic t dir) = .ok out) :
+    out.recv.WellFormed ∧ out.news = [] := by
+  change (if dir < o.pardim then inPlace (o.lowerPeriodic t dir) else .error .value) = .ok out at hs
+  by_cases hpd : dir < o.pardim
+  · rw [if_pos hpd] at hs
+    unfold inPlace at hs
+    have hd : dir < o.bases.size := by rw [← h.pardim_eq]; exact hpd
+    cases hres : o.lowerPeriodic t dir with
+    | error e => rw [hres] at hs; cases hs
+    | ok o1 =>
+      rw [hres] at hs
+      have : ({ recv := o1, news := [] } : Out K) = out := Except.ok.inj hs
+      rw [← this]
+      exact ⟨h.lowerPeriodic_any dir hd t hres, rfl⟩
+  · rw [if_neg hpd] at hs
+    cases hs
+
+end History
+
+
+/-! ## multiplicity of the other knots under a periodic insertion -/
+
+namespace C10
+
+/-- **A periodic insertion (of any real `y`) never lowers the multiplicity of a value `z` strictly inside
+    the domain** — every valid periodic basis.  (From the array description around the insertion index,
+    `insertKnot_periodic_window`; the run of `z > start` lies within one period of that index.) -/
+theorem mult_insert_ge (b : Basis K) (hv : b.Valid) (k : ℕ) (hk : b.periodic = (k : Int)) (y z : K)
+    (hz : b.start < z ∧ z < b.stop) (b' : Basis K) (C : Mat K) (hins : b.insertKnot y = .ok (b', C)) :
+    b.mult z ≤ b'.mult z := by
+  have hper : 0 ≤ b.periodic := by rw [hk]; omega
+  obtain ⟨hx1, hx2, _⟩ := wrapVal_mem b hv.start_lt_stop y
+  rw [insertKnot_wrap b hper hv.start_lt_stop y] at hins
+  set x := wrapVal b y with hxdef
+  obtain ⟨bk, Ck, h1, hR, hkn⟩ := insertKnot_periodic_window b hv k hk x ⟨hx1, hx2⟩
+  rw [hins] at h1
+  have e : b' = bk := (Prod.mk.inj (Except.ok.inj h1)).1
+  subst e
+  have hvk : b'.Valid := hR.valid
+  have hsz : b'.knots.size = b.knots.size + 1 := hR.size_eq
+  have hmono : Monotone b.kn := hv.kn_mono
+  have hp := hv.order_pos
+  have hsize := hv.size_ge
+  have hn := numFunctions_periodic b k hk
+  have hpk : k + 2 ≤ b.order := by
+    rcases hv.periodic_le with h | h
+    · rw [hk] at h; omega
+    · rw [hk] at h; omega
+  obtain ⟨m1, m2, m3, m4, m5, m6⟩ := insertMu_spec b hv k hk x ⟨hx1, hx2⟩
+  set ms := b.insertMu x with hms
+  obtain ⟨r1, r2, r3⟩ := bisectRight_spec b.kn hmono z b.knots.size
+  have r1' : b.bisectR z ≤ b.knots.size := r1
+  have r2' : ∀ i, i < b.bisectR z → b.kn i ≤ z := r2
+  have hll : b.bisectL z ≤ b.bisectR z := Basis.bisectL_le_bisectR hv z
+  have hR2 : b.bisectR z ≤ b.knots.size - b.order := by
+    by_contra hlt
+    have h2' : b.kn (b.knots.size - b.order) ≤ z := r2' _ (by omega)
+    exact absurd hz.2 (not_lt.2 h2')
+  have hrun : ∀ j, b.bisectL z ≤ j → j < b.bisectR z → b.kn j = z :=
+    fun j h1 h2 => Basis.kn_of_mem_run hv z j h1 h2
+  by_cases hempty : b.bisectL z = b.bisectR z
+  · unfold Basis.mult; omega
+  have hstartkn : b.kn (b.order - 1) = b.start := rfl
+  by_cases hzx : z ≤ x
+  · -- the run lies before the insertion index and stays where it is
+    have hbelow : ∀ j, b.bisectL z ≤ j → j < b.bisectR z → j < ms ∧ ms ≤ j + b.numFunctions := by
+      intro j hj1 hj2
+      have hkj := hrun j hj1 hj2
+      constructor
+      · by_contra hc
+        have hx' : x < b.stop := by
+          by_contra hc2
+          have : b.kn ms ≤ b.kn j := hmono (by omega)
+          have hms2 : ms = b.numFunctions + k + 1 := m6 (le_antisymm hx2 (not_lt.1 hc2))
+          have : b.kn (b.knots.size - b.order) ≤ b.kn j := hmono (by omega)
+          rw [hkj] at this
+          exact absurd hz.2 (not_lt.2 this)
+        have h7 : x < b.kn ms := m5 hx'
+        have : b.kn ms ≤ b.kn j := hmono (by omega)
+        rw [hkj] at this
+        exact absurd (lt_of_lt_of_le h7 this) (not_lt.2 hzx)
+      · by_contra hc
+        have : b.kn j ≤ b.kn (b.order - 1) := hmono (by omega)
+        rw [hkj, hstartkn] at this
+        exact absurd hz.1 (not_lt.2 this)
+    have hnew : ∀ j, b.bisectL z ≤ j → j ≤ b.bisectR z - 1 → b'.kn j = z := by
+      intro j hj1 hj2
+      obtain ⟨g1, g2⟩ := hbelow j hj1 (by omega)
+      rw [hkn j g2 (by omega) (by omega), bo_ins_lt g1]
+      exact hrun j hj1 (by omega)
+    obtain ⟨g1, g2⟩ := Basis.run_le_mult hvk z (b.bisectL z) (b.bisectR z - 1) (by omega)
+      (by rw [hsz]; omega) hnew
+    unfold Basis.mult
+    omega
+  · -- the run lies after the insertion index and moves up by one
+    have hxz : x < z := not_le.1 hzx
+    have habove : ∀ j, b.bisectL z ≤ j → j < b.bisectR z → ms ≤ j ∧ j + 1 ≤ ms + b.numFunctions := by
+      intro j hj1 hj2
+      have hkj := hrun j hj1 hj2
+      constructor
+      · by_contra hc
+        have : b.kn j ≤ b.kn (ms - 1) := hmono (by omega)
+        rw [hkj] at this
+        exact absurd (lt_of_le_of_lt (le_trans this m3) hxz) (lt_irrefl _)
+      · by_contra hc
+        have hg := hv.ghosts hper (b.order - 1) (by omega)
+        have : b.kn (b.order - 1 + b.numFunctions) ≤ b.kn j := hmono (by omega)
+        rw [hg, hkj, hstartkn] at this
+        have hz2 := hz.2
+        linarith
+    have hnew : ∀ j, b.bisectL z + 1 ≤ j → j ≤ b.bisectR z → b'.kn j = z := by
+      intro j hj1 hj2
+      obtain ⟨g1, g2⟩ := habove (j - 1) (by omega) (by omega)
+      rw [hkn j (by omega) (by omega) (by omega), bo_ins_gt (k := j - 1) g1 (by omega)]
+      exact hrun (j - 1) (by omega) (by omega)
+    obtain ⟨g1, g2⟩ := Basis.run_le_mult hvk z (b.bisectL z + 1) (b.bisectR z) (by omega)
+      (by rw [hsz]; omega) hnew
+    unfold Basis.mult
+    omega
+
+end C10
+
+
+namespace C10
+
+/-- A sequence of periodic insertions never lowers the multiplicity of a value strictly inside the
+    domain. -/
+theorem mult_insertMany_ge (b0 : Basis K) (hv0 : b0.Valid) (k : ℕ) (hk : b0.periodic = (k : Int))
+    (z : K) (hz : b0.start < z ∧ z < b0.stop) (xs : List K) :
+    ∀ (b : Basis K) (Cacc : Mat K) (m : ℕ), PerRefines b0 b Cacc m →
+      ∀ b' C, insertMany b Cacc xs = .ok (b', C) →
+        b.mult z ≤ b'.mult z ∧ ∃ m', PerRefines b0 b' C m' := by
+  induction xs with
+  | nil =>
+    intro b Cacc m hR b' C h
+    have e : (b, Cacc) = (b', C) := Except.ok.inj h
+    have e1 : b = b' := (Prod.mk.inj e).1
+    have e2 : Cacc = C := (Prod.mk.inj e).2
+    subst e1 e2
+    exact ⟨le_refl _, m, hR⟩
+  | cons x xs ih =>
+    intro b Cacc m hR b' C h
+    obtain ⟨b1, C1, hins, hr1, _⟩ := insertKnot_per_step_all b hR.valid k (hR.periodic_eq.trans hk) x
+    have hstep : stepIns (b, Cacc) x = .ok (b1, Mat.mul C1 Cacc) := by
+      unfold stepIns
+      simp only [hins]
+      rfl
+    unfold insertMany at h
+    rw [List.foldlM_cons, hstep] at h
+    have h' : insertMany b1 (Mat.mul C1 Cacc) xs = .ok (b', C) := h
+    obtain ⟨g1, g2⟩ := ih b1 (Mat.mul C1 Cacc) (m + 1) (perRefines_trans hv0 hR hr1) b' C h'
+    have hm := mult_insert_ge b hR.valid k (hR.periodic_eq.trans hk) x z
+      ⟨by rw [hR.start_eq]; exact hz.1, by rw [hR.stop_eq]; exact hz.2⟩ b1 C1 hins
+    exact ⟨le_trans hm g1, g2⟩
+
+/-- Object level: `insert_knot(xs, dir)` along a periodic direction never lowers the multiplicity of a
+    value strictly inside the domain. -/
+theorem insertKnots_mult_ge {o o' : Obj K} (h : o.WellFormed) (dir : ℕ) (hd : dir < o.bases.size)
+    (k : ℕ) (hk : (o.basis dir).periodic = (k : Int)) (z : K)
+    (hz : (o.basis dir).start < z ∧ z < (o.basis dir).stop) (xs : List K)
+    (hs : o.insertKnots xs dir = .ok o') : (o.basis dir).mult z ≤ (o'.basis dir).mult z := by
+  have hv := h.valid dir hd
+  rw [insertKnots_eq] at hs
+  obtain ⟨bc, hm, hpure⟩ := bind_ok hs
+  obtain ⟨b', C⟩ := bc
+  have ho' : ({ o with bases := o.bases.set! dir b', cps := Tensor.applyAxis C o.cps dir } : Obj K)
+      = o' := Except.ok.inj hpure
+  have hsb : o'.basis dir = b' := by rw [← ho']; exact basis_set o dir hd _ _
+  rw [h.shape_getD dir 0 hd] at hm
+  rw [hsb]
+  exact (mult_insertMany_ge (o.basis dir) hv k hk z hz xs (o.basis dir) _ 0
+    (perRefines_refl _ hv) b' C hm).1
+
+/-- Invariant of the insertion loop of `split` along a periodic direction `dir`, without guard: well
+    formed, `nb` bases, direction `dir` periodic with continuity `k`, start `s`, end `e`, order `p`. -/
+def PerInvAll (dir nb k : ℕ) (s e : K) (p : ℕ) (so : Obj K) : Prop :=
+  so.WellFormed ∧ so.bases.size = nb ∧ (so.basis dir).periodic = (k : Int) ∧
+    (so.basis dir).start = s ∧ (so.basis dir).stop = e ∧ (so.basis dir).order = p
+
+theorem PerInvAll.insertKnots {dir nb k : ℕ} {s e : K} {p : ℕ} {so so' : Obj K}
+    (h : PerInvAll dir nb k s e p so) (hd : dir < nb) (z : K) (xs : List K)
+    (hs : so.insertKnots xs dir = .ok so') :
+    PerInvAll dir nb k s e p so' ∧
+      (s < z ∧ z < e → (so.basis dir).mult z ≤ (so'.basis dir).mult z) := by
+  obtain ⟨hw, hn, hper, hst, hen, hp⟩ := h
+  have hd' : dir < so.bases.size := by rw [hn]; exact hd
+  obtain ⟨hw', hn', _, hper', hord', _, hst', hen'⟩ := hw.insertKnots_periodic_all dir hd' k hper xs hs
+  refine ⟨⟨hw', hn'.trans hn, hper', hst'.trans hst, hen'.trans hen, hord'.trans hp⟩, fun hz => ?_⟩
+  exact insertKnots_mult_ge hw dir hd' k hper z (by rw [hst, hen]; exact hz) xs hs
+
+/-- The insertion loop of `split` on a periodic direction (any values), started from any object satisfying
+    the invariant: the invariant is kept and the multiplicity of a value strictly inside the domain is
+    not lowered. -/
+theorem PerInvAll.splitInsertFold {dir nb k : ℕ} {s e : K} {p : ℕ} (hd : dir < nb)
+    (o : Obj K) (tol : K) (z : K) (knots : List K) :
+    ∀ {so so' : Obj K}, PerInvAll dir nb k s e p so →
+      knots.foldlM (fun (so : Obj K) k => do
+        let c ← (o.basis dir).continuity tol k
+        let cont : Int := match c with
+          | none => ((o.basis dir).order : Int) - 1
+          | some c => c
+        so.insertKnots (List.replicate (cont + 1).toNat k) dir) so = .ok so' →
+      PerInvAll dir nb k s e p so' ∧
+        (s < z ∧ z < e → (so.basis dir).mult z ≤ (so'.basis dir).mult z) := by
+  induction knots with
+  | nil =>
+    intro so so' h hs
+    have : so = so' := Except.ok.inj hs
+    rw [← this]; exact ⟨h, fun _ => le_refl _⟩
+  | cons x xs ih =>
+    intro so so' h hs
+    rw [List.foldlM_cons] at hs
+    obtain ⟨so1, hstep, hrest⟩ := bind_ok hs
+    obtain ⟨c, hc, hins⟩ := bind_ok hstep
+    obtain ⟨h1, hm1⟩ := h.insertKnots hd z _ hins
+    obtain ⟨h2, hm2⟩ := ih h1 hrest
+    exact ⟨h2, fun hz => le_trans (hm1 hz) (hm2 hz)⟩
+
+/-- **The first loop of `split` on a periodic direction keeps the object well formed** — every periodic
+    direction, any split values. -/
+theorem splitInsert_periodic_inv_all {o so : Obj K} (h : o.WellFormed) (tol : K) (knots : List K)
+    (dir : ℕ) (hd : dir < o.bases.size) (k : ℕ) (hk : (o.basis dir).periodic = (k : Int))
+    (hs : o.splitInsert tol knots dir = .ok so) :
+    PerInvAll dir o.bases.size k (o.basis dir).start (o.basis dir).stop (o.basis dir).order so :=
+  (PerInvAll.splitInsertFold hd o tol 0 knots ⟨h, rfl, hk, rfl, rfl, rfl⟩ hs).1
+
+/-- **`hMult` for several split values**: after the insertion loop of `split(x0 :: rest)` on a periodic
+    direction, the first value `x0` (strictly inside the base period, no other knot within the tolerance
+    of `x0`) has multiplicity at least `p` at `bisect_left` — the later insertions never lower it. -/
+theorem hMult_of_exact_cons {o : Obj K} (h : o.WellFormed) (dir : ℕ) (hd : dir < o.bases.size)
+    (k : ℕ) (hk : (o.basis dir).periodic = (k : Int)) {tol x0 : K} (htol : 0 < tol) (rest : List K)
+    (hx : (o.basis dir).start < x0 ∧ x0 < (o.basis dir).stop)
+    (hexR : ∀ i, i < (o.basis dir).knots.size →
+      (o.basis dir).kn i ≤ x0 ∨ x0 + tol ≤ (o.basis dir).kn i)
+    (hexL : ∀ i, i < (o.basis dir).knots.size →
+      (o.basis dir).kn i < x0 - tol ∨ x0 ≤ (o.basis dir).kn i) :
+    ∀ so, o.splitInsert tol (x0 :: rest) dir = .ok so →
+      (so.basis dir).kn ((so.basis dir).bisectL x0) = x0 ∧
+      (so.basis dir).kn ((so.basis dir).bisectL x0 + (o.basis dir).order - 1) = x0 := by
+  intro so hso
+  have hv := h.valid dir hd
+  have hp := hv.order_pos
+  unfold Obj.splitInsert at hso
+  rw [List.foldlM_cons] at hso
+  obtain ⟨so1, hstep, hrest⟩ := bind_ok hso
+  have hso1 : o.splitInsert tol [x0] dir = .ok so1 := by
+    unfold Obj.splitInsert
+    rw [List.foldlM_cons, hstep]
+    rfl
+  obtain ⟨hM1, hM2⟩ := hMult_of_exact_all o dir hd hv k hk (h.shape_getD dir 0 hd) htol
+    ⟨le_of_lt hx.1, hx.2⟩ hexR hexL so1 hso1
+  have hinv1 := splitInsert_periodic_inv_all h tol [x0] dir hd k hk hso1
+  have hd1 : dir < so1.bases.size := by rw [hinv1.2.1]; exact hd
+  have hv1 := hinv1.1.valid dir hd1
+  -- multiplicity `≥ p` after the copies of `x0`
+  have hsz1 : (so1.basis dir).bisectL x0 + (o.basis dir).order - 1 < (so1.basis dir).knots.size := by
+    by_contra hc
+    have hlast : (so1.basis dir).kn ((so1.basis dir).bisectL x0 + (o.basis dir).order - 1)
+        = (so1.basis dir).kn ((so1.basis dir).knots.size - 1) := C04.kn_of_ge _ (by omega)
+    have hp1 := hv1.order_pos
+    have hstop : (so1.basis dir).stop ≤ (so1.basis dir).kn ((so1.basis dir).knots.size - 1) := by
+      show (so1.basis dir).kn ((so1.basis dir).knots.size - (so1.basis dir).order) ≤ _
+      exact hv1.kn_mono (by omega)
+    rw [← hlast, hM2, hinv1.2.2.2.2.1] at hstop
+    exact absurd hx.2 (not_lt.2 hstop)
+  have hrun1 : ∀ j, (so1.basis dir).bisectL x0 ≤ j →
+      j ≤ (so1.basis dir).bisectL x0 + (o.basis dir).order - 1 → (so1.basis dir).kn j = x0 := by
+    intro j hj1 hj2
+    apply le_antisymm
+    · rw [← hM2]; exact hv1.kn_mono hj2
+    · rw [← hM1]; exact hv1.kn_mono hj1
+  obtain ⟨_, g2⟩ := Basis.run_le_mult hv1 x0 _ _ (by omega) hsz1 hrun1
+  have hll1 := Basis.bisectL_le_bisectR hv1 x0
+  have hmult1 : (o.basis dir).order ≤ (so1.basis dir).mult x0 := by
+    unfold Basis.mult; omega
+  -- the later insertions
+  obtain ⟨hinv, hmult⟩ := PerInvAll.splitInsertFold hd o tol x0 rest hinv1 hrest
+  have hmult2 : (o.basis dir).order ≤ (so.basis dir).mult x0 := le_trans hmult1 (hmult hx)
+  have hd2 : dir < so.bases.size := by rw [hinv.2.1]; exact hd
+  have hv2 := hinv.1.valid dir hd2
+  have hll2 := Basis.bisectL_le_bisectR hv2 x0
+  unfold Basis.mult at hmult2
+  exact ⟨Basis.kn_of_mem_run hv2 x0 _ (le_refl _) (by omega),
+    Basis.kn_of_mem_run hv2 x0 _ (by omega) (by omega)⟩
+
+end C10
+
+
+namespace C10
+
+/-- **The object opened at `x0`** (`roll` the knots to `μ = bisect_left(knots, x0)`, roll the control
+    points, drop the ghost knots): well formed, non-periodic along `dir` with start `x0` and end
+    `x0 + T`, provided `x0` has multiplicity at least `p` at `μ` (every valid periodic direction: the
+    multiplicity forces `n ≥ p`).  If `μ ≥ 1` its end knot has multiplicity
+    at most `p`. -/
+theorem opened_wf_all {so : Obj K} (hw : so.WellFormed) (dir : ℕ) (hd : dir < so.bases.size) (k : ℕ)
+    (hk : (so.basis dir).periodic = (k : Int))
+    (x0 : K) (hx : x0 < (so.basis dir).stop)
+    (hM1 : (so.basis dir).kn ((so.basis dir).bisectL x0) = x0)
+    (hM2 : (so.basis dir).kn ((so.basis dir).bisectL x0 + (so.basis dir).order - 1) = x0) :
+    (so.basis dir).bisectL x0 + (so.basis dir).order - 1 < (so.basis dir).nAll ∧
+    (so.basis dir).bisectL x0 ≤ (so.basis dir).numFunctions ∧
+    ∀ b1, (so.basis dir).roll ((so.basis dir).bisectL x0) = .ok b1 →
+      (so.openedAt dir ((so.basis dir).bisectL x0) b1).WellFormed ∧
+      (so.openedAt dir ((so.basis dir).bisectL x0) b1).bases.size = so.bases.size ∧
+      ((so.openedAt dir ((so.basis dir).bisectL x0) b1).basis dir).periodic = -1 ∧
+      ((so.openedAt dir ((so.basis dir).bisectL x0) b1).basis dir).order = (so.basis dir).order ∧
+      ((so.openedAt dir ((so.basis dir).bisectL x0) b1).basis dir).start = x0 ∧
+      ((so.openedAt dir ((so.basis dir).bisectL x0) b1).basis dir).stop
+        = x0 + ((so.basis dir).stop - (so.basis dir).start) ∧
+      (1 ≤ (so.basis dir).bisectL x0 →
+        ((so.openedAt dir ((so.basis dir).bisectL x0) b1).basis dir).kn
+          (((so.openedAt dir ((so.basis dir).bisectL x0) b1).basis dir).knots.size
+            - ((so.openedAt dir ((so.basis dir).bisectL x0) b1).basis dir).order - 1)
+          < ((so.openedAt dir ((so.basis dir).bisectL x0) b1).basis dir).stop) := by
+  set b' := so.basis dir with hb'
+  set mu := b'.bisectL x0 with hmudef
+  have hv' : b'.Valid := hw.valid dir hd
+  have hper' : 0 ≤ b'.periodic := by rw [hk]; omega
+  have hktn : b'.periodic.toNat = k := by rw [hk]; omega
+  have hp := hv'.order_pos
+  have hpk : k + 2 ≤ b'.order := by
+    rcases hv'.periodic_le with h | h
+    · rw [hk] at h; omega
+    · rw [hk] at h; omega
+  have hsize' := Basis.per_size hv' hper'
+  have hnAll' := Basis.per_nAll hv' hper'
+  rw [hktn] at hsize' hnAll'
+  have hTpos : 0 < b'.stop - b'.start := sub_pos.2 hv'.start_lt_stop
+  have hmu_lt : mu + b'.order - 1 < b'.nAll := by
+    by_contra hc
+    have h1 : b'.kn b'.nAll ≤ b'.kn (mu + b'.order - 1) := hv'.kn_mono (by omega)
+    have h2 : b'.kn b'.nAll = b'.stop := rfl
+    rw [h2, hM2] at h1
+    exact absurd hx (not_lt.2 h1)
+  have hmu_le : mu ≤ b'.numFunctions := by omega
+  have hpn : b'.order ≤ b'.numFunctions := by
+    by_contra hc
+    have := kn_run_le_period hv' k hk mu (mu + b'.order - 1) (by omega)
+      (by unfold Basis.nAll at hmu_lt; omega)
+    rw [hM1, hM2] at this
+    exact absurd this (lt_irrefl _)
+  refine ⟨hmu_lt, hmu_le, fun b1 hroll => ?_⟩
+  obtain ⟨e1, e2, e3, e4⟩ := Basis.opened_spec hv' hper' mu hmu_le b1 hroll
+  set b2 : Basis K := { b1 with knots := b1.knots.extract 0 (b1.knots.size - b'.periodic.toNat - 1),
+                                periodic := -1 } with hb2
+  have hopb : (so.openedAt dir mu b1).basis dir = b2 := by
+    unfold Obj.openedAt
+    rw [basis_set so dir hd]
+  have hb2sz : b2.knots.size = b'.numFunctions + b'.order := e3
+  have hb2kn : ∀ j, j < b'.numFunctions + b'.order → b2.kn j = b'.ext (mu + j) := e4
+  have hb2ord : b2.order = b'.order := e1
+  have hext : ∀ i, i < b'.knots.size → b'.ext i = b'.kn i := Basis.ext_eq hv' hper'
+  have hstart2 : b2.start = x0 := by
+    show b2.kn (b2.order - 1) = x0
+    rw [hb2ord, hb2kn _ (by omega), hext _ (by omega),
+      show mu + (b'.order - 1) = mu + b'.order - 1 by omega, hM2]
+  have hstop2 : b2.stop = x0 + (b'.stop - b'.start) := by
+    show b2.kn (b2.knots.size - b2.order) = _
+    rw [hb2sz, hb2ord, Nat.add_sub_cancel, hb2kn _ (by omega),
+      Basis.ext_add hv' hper', hext _ (by omega), hM1]
+  have hvalid2 : b2.Valid := by
+    refine ⟨(by rw [hb2ord]; exact hp), ?_, ?_, (by rw [e2]), Or.inr e2, ?_, ?_⟩
+    · rw [hb2sz, hb2ord]; omega
+    · intro j hj
+      rw [hb2sz] at hj
+      rw [hb2kn j (by omega), hb2kn (j+1) (by omega)]
+      exact Basis.ext_mono hv' hper' (by omega)
+    · rw [hstart2, hstop2]; linarith
+    · intro h; rw [e2] at h; exact absurd h (by decide)
+  have hnum2 : b2.numFunctions = b'.numFunctions := by
+    show b2.knots.size - b2.order - (b2.periodic + 1).toNat = b'.numFunctions
+    rw [hb2sz, hb2ord, e2, show ((-1 : Int) + 1).toNat = 0 from rfl]
+    omega
+  refine ⟨?_, ?_, ?_, ?_, ?_, ?_, ?_⟩
+  · exact hw.rollNeg dir mu hd b2 hvalid2 hnum2
+  · show (so.bases.set! dir b2).size = so.bases.size
+    exact size_set! _ _ _
+  · rw [hopb]
+  · rw [hopb]; exact hb2ord
+  · rw [hopb]; exact hstart2
+  · rw [hopb]; exact hstop2
+  · intro hmu1
+    rw [hopb, hstop2, hb2sz, hb2ord, Nat.add_sub_cancel, hb2kn _ (by omega),
+      show mu + (b'.numFunctions - 1) = (mu - 1) + b'.numFunctions by omega,
+      Basis.ext_add hv' hper', hext _ (by omega)]
+    obtain ⟨_, hm2, _⟩ := bisectLeft_spec b'.kn hv'.kn_mono x0 b'.knots.size
+    have : b'.kn (mu - 1) < x0 := hm2 (mu - 1) (by
+      show mu - 1 < b'.bisectL x0
+      omega)
+    linarith
+
+end C10
+
+
+/-! ## `split` along a periodic direction, every direction -/
+
+namespace Obj
+
+/-- **`split(x0 :: rest, dir)` along a periodic direction returns well-formed objects** — every valid
+    periodic direction (no guard `n ≥ p + k`, later values may wrap onto the end of the domain).
+    Hypotheses: `x0` in the base period `[start, end)`; after the insertion loop `x0` has multiplicity at
+    least `p` at `bisect_left` (`hMult`; derived from exact tolerance comparisons in
+    `WellFormed.split_periodic_exact`); the later values lie in `[x0, x0 + T)`; if there are later
+    values, `x0` is not the start of the domain. -/
+theorem WellFormed.split_periodic_all {o : Obj K} (h : o.WellFormed) (tol x0 : K) (rest : List K)
+    (dir : ℕ) (hd : dir < o.bases.size) (k : ℕ) (hk : (o.basis dir).periodic = (k : Int))
+    (hx : (o.basis dir).start ≤ x0 ∧ x0 < (o.basis dir).stop)
+    (hMult : ∀ so, o.splitInsert tol (x0 :: rest) dir = .ok so →
+      (so.basis dir).kn ((so.basis dir).bisectL x0) = x0 ∧
+      (so.basis dir).kn ((so.basis dir).bisectL x0 + (o.basis dir).order - 1) = x0)
+    (hrest : ∀ y ∈ rest, x0 ≤ y ∧ y < x0 + ((o.basis dir).stop - (o.basis dir).start))
+    (hpos : rest ≠ [] → (o.basis dir).start < x0)
+    {r : SplitRes K} (hs : o.split tol (x0 :: rest) dir = .ok r) :
+    r.AllWF ∧ (rest = [] → ∃ op, r = .single op) ∧ (rest ≠ [] → ∃ ps, r = .many ps) := by
+  have hv := h.valid dir hd
+  cases hso : o.splitInsert tol (x0 :: rest) dir with
+  | error e =>
+    unfold Obj.split at hs
+    rw [hso] at hs
+    cases hs
+  | ok so =>
+    obtain ⟨hw, hsz, hper, hst, hen, hord⟩ :=
+      splitInsert_periodic_inv_all h tol (x0 :: rest) dir hd k hk hso
+    have hd' : dir < so.bases.size := by rw [hsz]; exact hd
+    have hv' := hw.valid dir hd'
+    have hper' : 0 ≤ (so.basis dir).periodic := by rw [hper]; omega
+    obtain ⟨hM1, hM2⟩ := hMult so hso
+    rw [← hord] at hM2
+    obtain ⟨hmu_lt, hmu_le, hop⟩ := opened_wf_all hw dir hd' k hper x0
+      (by rw [hen]; exact hx.2) hM1 hM2
+    obtain ⟨b1, hroll, _⟩ := Basis.roll_spec hv' hper' _ hmu_le
+    have hsize' := Basis.per_size hv' hper'
+    rw [split_cons_unfold o so tol x0 rest dir b1 hso (by rw [hper]; omega) (by omega) hroll] at hs
+    obtain ⟨hwop, hszop, hperop, hordop, hstartop, hstopop, hendop⟩ := hop b1 hroll
+    cases rest with
+    | nil =>
+      rw [if_neg (by simp)] at hs
+      have hr : SplitRes.single _ = r := Except.ok.inj hs
+      rw [← hr]
+      exact ⟨hwop, fun _ => ⟨_, rfl⟩, fun hne => absurd rfl hne⟩
+    | cons y ys =>
+      rw [if_pos (by simp)] at hs
+      obtain ⟨so3, hins3, hrest3⟩ := bind_ok hs
+      obtain ⟨ps, hps, hpure⟩ := bind_ok hrest3
+      have hr : SplitRes.many ps = r := Except.ok.inj hpure
+      have hdop : dir < (so.openedAt dir ((so.basis dir).bisectL x0) b1).bases.size := by
+        rw [hszop]; exact hd'
+      have hinv3 := splitInsert_inv hwop tol (y :: ys) dir hdop hperop (by
+        intro z hz
+        rw [hstartop, hstopop, hen, hst]
+        exact hrest z hz) hins3
+      obtain ⟨init, last, hpl, hinit, hlast, hdom⟩ := splitPieces_wf hinv3 hdop tol (y :: ys) hps
+      have hmu1 : 1 ≤ (so.basis dir).bisectL x0 := by
+        have hlt := hpos (List.cons_ne_nil y ys)
+        obtain ⟨_, _, hm3⟩ := bisectLeft_spec (so.basis dir).kn hv'.kn_mono x0 (so.basis dir).knots.size
+        by_contra hc
+        have h0 : (so.basis dir).bisectL x0 = 0 := by omega
+        have := hm3 ((so.basis dir).order - 1) (by
+          show (so.basis dir).bisectL x0 ≤ _
+          omega) (by have := hv'.size_ge; have := hv'.order_pos; omega)
+        have hs' : (so.basis dir).kn ((so.basis dir).order - 1) = (o.basis dir).start := hst
+        rw [hs'] at this
+        exact absurd hlt (not_lt.2 this)
+      have hc := countGe_le_of_end (hwop.valid dir hdop) _ (hendop hmu1)
+      rw [← hr]
+      refine ⟨?_, fun hne => absurd hne (List.cons_ne_nil y ys), fun _ => ⟨_, rfl⟩⟩
+      intro pc hpc
+      rw [hpl] at hpc
+      rcases List.mem_append.1 hpc with h1 | h1
+      · exact hinit pc h1
+      · rw [List.mem_singleton] at h1
+        rw [h1]
+        exact hlast (hdom hc)
+
+/-- **`split(x0 :: rest, dir)` along a periodic direction, `hMult` derived**: every valid periodic
+    direction, `x0 ∈ [start, end)` with no other knot within the tolerance of `x0`, later values in
+    `[x0, x0 + T)`, and with later values `x0 ≠ start`. -/
+theorem WellFormed.split_periodic_exact {o : Obj K} (h : o.WellFormed) (tol : K) (htol : 0 < tol)
+    (x0 : K) (rest : List K) (dir : ℕ) (hd : dir < o.bases.size) (k : ℕ)
+    (hk : (o.basis dir).periodic = (k : Int))
+    (hx : (o.basis dir).start ≤ x0 ∧ x0 < (o.basis dir).stop)
+    (hexR : ∀ i, i < (o.basis dir).knots.size →
+      (o.basis dir).kn i ≤ x0 ∨ x0 + tol ≤ (o.basis dir).kn i)
+    (hexL : ∀ i, i < (o.basis dir).knots.size →
+      (o.basis dir).kn i < x0 - tol ∨ x0 ≤ (o.basis dir).kn i)
+    (hrest : ∀ y ∈ rest, x0 ≤ y ∧ y < x0 + ((o.basis dir).stop - (o.basis dir).start))
+    (hpos : rest ≠ [] → (o.basis dir).start < x0)
+    {r : SplitRes K} (hs : o.split tol (x0 :: rest) dir = .ok r) :
+    r.AllWF ∧ (rest = [] → ∃ op, r = .single op) ∧ (rest ≠ [] → ∃ ps, r = .many ps) := by
+  refine h.split_periodic_all tol x0 rest dir hd k hk hx ?_ hrest hpos hs
+  by_cases hne : rest = []
+  · subst hne
+    exact hMult_of_exact_all o dir hd (h.valid dir hd) k hk (h.shape_getD dir 0 hd) htol hx hexR hexL
+  · exact hMult_of_exact_cons h dir hd k hk htol rest ⟨hpos hne, hx.2⟩ hexR hexL
+
+end Obj
+
+namespace History
+
+/-- `_partial`: `split(x0 :: rest, dir)` along a periodic direction — EVERY valid periodic direction (no
+    guard), no `hMult`.  Restrictions: `x0 ∈ [start, end)`; no knot other than `x0` within the tolerance of
+    `x0` (`hexR`, `hexL`: the tolerance comparisons of `continuity` are exact); the later values lie in
+    `[x0, x0 + T)`; with later values `x0` is not the start of the domain. -/
+theorem stepOut_split_periodic_wf_all_partial {o : Obj K} (h : o.WellFormed) (tol : K)
+    (htol : 0 < tol) (x0 : K) (rest : List K) (dir : ℕ) (k : ℕ)
+    (hk : (o.basis dir).periodic = (k : Int))
+    (hx : (o.basis dir).start ≤ x0 ∧ x0 < (o.basis dir).stop)
+    (hexR : ∀ i, i < (o.basis dir).knots.size →
+      (o.basis dir).kn i ≤ x0 ∨ x0 + tol ≤ (o.basis dir).kn i)
+    (hexL : ∀ i, i < (o.basis dir).knots.size →
+      (o.basis dir).kn i < x0 - tol ∨ x0 ≤ (o.basis dir).kn i)
+    (hrest : ∀ y ∈ rest, x0 ≤ y ∧ y < x0 + ((o.basis dir).stop - (o.basis dir).start))
+    (hpos : rest ≠ [] → (o.basis dir).start < x0)
+    {out : Out K} (hs : stepOut tol o (.split (x0 :: rest) dir) = .ok out) :
+    out.recv.WellFormed ∧ ∀ n ∈ out.news, n.WellFormed := by
+  obtain ⟨hpd, hrecv, r, hres, hsingle, hmany⟩ := stepOut_split_eq tol (x0 :: rest) dir hs
+  have hd : dir < o.bases.size := by rw [← h.pardim_eq]; exact hpd
+  obtain ⟨hall, _, _⟩ := h.split_periodic_exact tol htol x0 rest dir hd k hk hx hexR hexL hrest hpos hres
+  refine ⟨by rw [hrecv]; exact h, fun n hn => ?_⟩
+  cases r with
+  | single p =>
+    rw [hsingle p rfl, List.mem_singleton] at hn
+    rw [hn]; exact hall
+  | many ps =>
+    rw [hmany ps rfl] at hn
+    exact hall n hn
+
+/-- `_partial`: `split([x0], dir)` along a periodic direction (the call returns the opened object) — every
+    valid periodic direction.  Restrictions: `x0 ∈ [start, end)` and no knot other than `x0` within the
+    tolerance of `x0` (`hexR`, `hexL`). -/
+theorem stepOut_split_periodic_single_wf_all_partial {o : Obj K} (h : o.WellFormed) (tol : K)
+    (htol : 0 < tol) (x0 : K) (dir : ℕ) (k : ℕ) (hk : (o.basis dir).periodic = (k : Int))
+    (hx : (o.basis dir).start ≤ x0 ∧ x0 < (o.basis dir).stop)
+    (hexR : ∀ i, i < (o.basis dir).knots.size →
+      (o.basis dir).kn i ≤ x0 ∨ x0 + tol ≤ (o.basis dir).kn i)
+    (hexL : ∀ i, i < (o.basis dir).knots.size →
+      (o.basis dir).kn i < x0 - tol ∨ x0 ≤ (o.basis dir).kn i)
+    {out : Out K} (hs : stepOut tol o (.split [x0] dir) = .ok out) :
+    out.recv.WellFormed ∧ ∀ n ∈ out.news, n.WellFormed :=
+  stepOut_split_periodic_wf_all_partial h tol htol x0 [] dir k hk hx hexR hexL
+    (fun y hy => absurd hy List.not_mem_nil) (fun hne => absurd rfl hne) hs
+
+/-- The cases of `split` covered by the C10 lemmas, without guard: a non-periodic direction (values in
+    `[start, end)`, end knot of multiplicity at most `p`), or ANY periodic direction with `x0` in the base
+    period, `hMult` (see `SplitOKAll.of_exact`, `SplitOKAll.of_exact_cons`), later values in
+    `[x0, x0 + T)`, and `x0 ≠ start` if there are later values. -/
+def SplitOKAll (o : Obj K) (tol : K) (knots : List K) (dir : ℕ) : Prop :=
+  ((o.basis dir).periodic = -1 ∧
+    (∀ k ∈ knots, (o.basis dir).start ≤ k ∧ k < (o.basis dir).stop) ∧
+    (o.basis dir).kn ((o.basis dir).knots.size - (o.basis dir).order - 1) < (o.basis dir).stop) ∨
+  (∃ (k : ℕ) (x0 : K) (rest : List K), knots = x0 :: rest ∧ (o.basis dir).periodic = (k : Int) ∧
+    ((o.basis dir).start ≤ x0 ∧ x0 < (o.basis dir).stop) ∧
+    (∀ so, o.splitInsert tol (x0 :: rest) dir = .ok so →
+      (so.basis dir).kn ((so.basis dir).bisectL x0) = x0 ∧
+      (so.basis dir).kn ((so.basis dir).bisectL x0 + (o.basis dir).order - 1) = x0) ∧
+    (∀ y ∈ rest, x0 ≤ y ∧ y < x0 + ((o.basis dir).stop - (o.basis dir).start)) ∧
+    (rest ≠ [] → (o.basis dir).start < x0))
+
+/-- `_partial`: `split` along any covered direction (`SplitOKAll`). -/
+theorem stepOut_split_all_wf_partial {o : Obj K} (h : o.WellFormed) (tol : K) (knots : List K)
+    (dir : ℕ) (hok : SplitOKAll o tol knots dir)
+    {out : Out K} (hs : stepOut tol o (.split knots dir) = .ok out) :
+    out.recv.WellFormed ∧ ∀ n ∈ out.news, n.WellFormed := by
+  rcases hok with ⟨hper, hk, hend⟩ | ⟨k, x0, rest, hkn, hk, hx, hM, hrest, hpos⟩
+  · exact stepOut_split_wf_end_partial h tol knots dir hper hk hend hs
+  · subst hkn
+    obtain ⟨hpd, hrecv, r, hres, hsingle, hmany⟩ := stepOut_split_eq tol (x0 :: rest) dir hs
+    have hd : dir < o.bases.size := by rw [← h.pardim_eq]; exact hpd
+    obtain ⟨hall, _, _⟩ := h.split_periodic_all tol x0 rest dir hd k hk hx hM hrest hpos hres
+    refine ⟨by rw [hrecv]; exact h, fun n hn => ?_⟩
+    cases r with
+    | single p =>
+      rw [hsingle p rfl, List.mem_singleton] at hn
+      rw [hn]; exact hall
+    | many ps =>
+      rw [hmany ps rfl] at hn
+      exact hall n hn
+
+/-- The old guarded condition implies the new one. -/
+theorem SplitOK.toAll {o : Obj K} {tol : K} {knots : List K} {dir : ℕ}
+    (hok : SplitOK o tol knots dir) : SplitOKAll o tol knots dir := by
+  rcases hok with h | ⟨k, x0, rest, hkn, hk, _, hx, hM, hrest, hpos⟩
+  · exact Or.inl h
+  · exact Or.inr ⟨k, x0, rest, hkn, hk, hx, hM,
+      fun y hy => ⟨(hrest y hy).1, (hrest y hy).2.1⟩, hpos⟩
+
+/-- A single split value of ANY periodic direction with exact tolerance comparisons is covered. -/
+theorem SplitOKAll.of_exact {o : Obj K} (h : o.WellFormed) (tol : K) (htol : 0 < tol) (x0 : K)
+    (dir : ℕ) (hd : dir < o.bases.size) (k : ℕ) (hk : (o.basis dir).periodic = (k : Int))
+    (hx : (o.basis dir).start ≤ x0 ∧ x0 < (o.basis dir).stop)
+    (hexR : ∀ i, i < (o.basis dir).knots.size →
+      (o.basis dir).kn i ≤ x0 ∨ x0 + tol ≤ (o.basis dir).kn i)
+    (hexL : ∀ i, i < (o.basis dir).knots.size →
+      (o.basis dir).kn i < x0 - tol ∨ x0 ≤ (o.basis dir).kn i) : SplitOKAll o tol [x0] dir :=
+  Or.inr ⟨k, x0, [], rfl, hk, hx,
+    hMult_of_exact_all o dir hd (h.valid dir hd) k hk (h.shape_getD dir 0 hd) htol hx hexR hexL,
+    fun y hy => absurd hy List.not_mem_nil, fun hne => absurd rfl hne⟩
+
+/-- Several split values of ANY periodic direction: first value strictly inside the base period with
+    exact tolerance comparisons, later values in `[x0, x0 + T)`. -/
+theorem SplitOKAll.of_exact_cons {o : Obj K} (h : o.WellFormed) (tol : K) (htol : 0 < tol) (x0 : K)
+    (rest : List K) (dir : ℕ) (hd : dir < o.bases.size) (k : ℕ)
+    (hk : (o.basis dir).periodic = (k : Int))
+    (hx : (o.basis dir).start < x0 ∧ x0 < (o.basis dir).stop)
+    (hexR : ∀ i, i < (o.basis dir).knots.size →
+      (o.basis dir).kn i ≤ x0 ∨ x0 + tol ≤ (o.basis dir).kn i)
+    (hexL : ∀ i, i < (o.basis dir).knots.size →
+      (o.basis dir).kn i < x0 - tol ∨ x0 ≤ (o.basis dir).kn i)
+    (hrest : ∀ y ∈ rest, x0 ≤ y ∧ y < x0 + ((o.basis dir).stop - (o.basis dir).start)) :
+    SplitOKAll o tol (x0 :: rest) dir :=
+  Or.inr ⟨k, x0, rest, rfl, hk, ⟨le_of_lt hx.1, hx.2⟩,
+    hMult_of_exact_cons h dir hd k hk htol rest hx hexR hexL, hrest, fun _ => hx.1⟩
 
 end History
 
